@@ -61,7 +61,7 @@ def cases(ctx):
                 yield {"kind": "rle_dense", "runs": [[v, 1] for v in vals], "dtype": "uint8"}
     while True:
         k = rng.choice(["rle_dense", "brle_dense", "rle_ops", "rle_ops", "brle_ops", "brle_ops", "binvox", "grid",
-                        "enc", "enc", "enc", "enc", "enc", "enc", "viewmap"])
+                        "enc", "enc", "enc", "enc", "enc", "enc", "viewmap", "addr"])
         ctx.count("kind:" + k)
         dt = rng.choice(list(DTYPES))
         if k == "rle_dense":
@@ -97,6 +97,17 @@ def cases(ctx):
             sign = [rng.choice([1, -1]) for _ in range(3)]
             yield {"kind": k, "shape": shape, "bits": [int(rng.random() < 0.5) for _ in range(n)], "scale": scale,
                    "perm": list(perm), "sign": sign, "t": [rng.randint(-5, 5) for _ in range(3)]}
+        elif k == "addr":
+            # points_to_indices / indices_to_points with dyadic pitch and origin (exact in float64), points at cell
+            # centres, strictly inside cells and exactly half way between two cells (np.round: ties to even)
+            pitch = rng.choice([0.5, 1.0, 2.0, 0.25, 4.0])
+            origin = [rng.randint(-8, 8) * 0.5 for _ in range(3)]
+            idx = [[rng.randint(-6, 6) for _ in range(3)] for _ in range(rng.randint(2, 6))]
+            pts = []
+            for ix in idx:
+                off = [rng.choice([0.0, 0.25, -0.25, 0.5, -0.5, 0.375]) for _ in range(3)]
+                pts.append([(ix[d] + off[d]) * pitch + origin[d] for d in range(3)])
+            yield {"kind": k, "pitch": pitch, "origin": origin, "indices": idx, "points": pts}
         elif k == "viewmap":
             shape = rng.choice([[5], [2, 3], [2, 2, 3], [1, 4], [3, 1, 2], [2, 3, 4], [3, 3, 3], [4, 1, 3, 2]])
             nd = len(shape)
@@ -188,6 +199,10 @@ def run_case(c):
     k = c["kind"]
     if k == "viewmap":
         return _view_maps(c)
+    if k == "addr":
+        from trimesh.voxel import ops
+        return {"to_index": np.asarray(ops.points_to_indices(np.array(c["points"]), pitch=c["pitch"], origin=np.array(c["origin"]))).tolist(),
+                "to_point": np.asarray(ops.indices_to_points(np.array(c["indices"]), pitch=c["pitch"], origin=np.array(c["origin"]))).tolist()}
     if k == "rle_dense":
         d = np.array(_expand(c["runs"]), dtype=np.int64)
         r = rl.dense_to_rle(d, dtype=getattr(np, c["dtype"]))
@@ -377,6 +392,12 @@ def oracle(c, o):
     k = c["kind"]
     if "err" in o:
         return {"kind": k, "fail": "raised", "err": o["err"]}
+    if k == "addr":
+        from trimesh.voxel import ops
+        back = np.asarray(ops.points_to_indices(np.array(o["to_point"]), pitch=c["pitch"], origin=np.array(c["origin"]))).tolist()
+        if back != c["indices"]:
+            return {"kind": k, "fail": "points-indices-not-inverse"}
+        return None
     if k == "viewmap":
         # the property's own statement for views: reading the view = reading the dense numpy result
         arr = np.array(c["data"], dtype=np.int64).reshape(c["shape"])
@@ -512,6 +533,15 @@ def model_request(c, o):
         return {"p": "C13", "op": "rle_ops", "m": m, "rle": c["rle"], "idx": c["idx"], "mask": c["mask"]}
     if k == "brle_ops":
         return {"p": "C13", "op": "brle_ops", "m": m, "brle": c["brle"], "idx": c["idx"], "mask": c["mask"]}
+    if k == "addr":
+        if "err" in o:
+            return None
+
+        def q(x):
+            n_, d_ = float(x).as_integer_ratio()
+            return [n_, d_]
+        return {"p": "C13", "op": "grid", "pitch": q(c["pitch"]), "origin": [q(x) for x in c["origin"]],
+                "points": [[q(x) for x in p_] for p_ in c["points"]], "indices": c["indices"]}
     if k == "viewmap":
         if "err" in o:
             return None
@@ -529,6 +559,14 @@ def compare(c, o, m):
     if "err" in m and len(m) == 1:
         return "model error: " + str(m["err"])
     k = c["kind"]
+    if k == "addr":
+        from fractions import Fraction
+        if m["to_index"] != o["to_index"]:
+            return f"points_to_indices: impl={o['to_index']} model={m['to_index']}"
+        mp = [[float(Fraction(x[0], x[1])) for x in p_] for p_ in m["to_point"]]
+        if mp != o["to_point"]:
+            return f"indices_to_points: impl={o['to_point']} model={mp}"
+        return None
     if k == "viewmap":
         pairs = [("flip_to", "flip"), ("flip_from", "flip"), ("flat_to", "unravel"), ("flat_from", "ravel"),
                  ("shaped_from", "unravel_new"), ("transposed_shape", "transposed_shape"),
